@@ -812,6 +812,10 @@ def _extract_expr_closure(src, spec, ed, first, limit):
     contract = spec.get("contract", "").strip()
     ed.insert(toks[first].pos, header + ("\n    " + contract.replace("\n", "\n    ") + "\n" if contract else "\n")
               + "{\n" + (spec.get("entry", "") + "\n" if spec.get("entry") else ""), order=-5)
+    if spec.get("wrap_expr"):
+        # the expression is handed to a checking stub (its type may be one the contract cannot name)
+        ed.insert(toks[first].pos, spec["wrap_expr"][0], order=-4)
+        ed.insert(toks[last].end, spec["wrap_expr"][1], order=4)
     ed.insert(toks[last].end, "\n}", order=5)
     F64_FIELDS[:] = spec.get("f64_fields", [])
     del SKIP[:]
